@@ -10,7 +10,7 @@ from fractions import Fraction
 
 from aval import AInt, AAgg, AFloat, ATop, ARef, mask, to_signed
 from interp import Interp
-from interp import site_key
+from interp import site_key, short_fn, entry_label
 import spec as S
 
 
@@ -309,7 +309,8 @@ def run_cells(ctx, prog, rule, fn_label, path, mkargs, cellsets, spec, out_bits,
                     ctx.finding('PANIC', *site_key(site),
                                 '%s at %s: reached with every input of cell %s of %s (first witness); the operation does not return in an overflow-checked build'
                                 % (out.value, out.where, fmt_cell(cell), fn_label),
-                                {'cell': cell, 'event': out.kind, 'kind': out.value, 'where': out.where, 'function': path, 'entry': fn_label})
+                                {'cell': cell, 'event': out.kind, 'kind': out.value, 'where': out.where, 'function': path, 'entry': fn_label},
+                                alt=('PANIC@', entry_label(fn_label), site_key(site)[1]))
                 else:
                     ctx.finding(rule, fn_label, 'cell=' + fmt_cell(cell),
                                 'on cell %s the function does not return: %s %s at %s' % (fmt_cell(cell), out.kind, out.value, out.where),
